@@ -906,7 +906,7 @@ Lemma f_cand_ok_split c : f_cand_ok c = true -> wf_cand fv_is_null c = true /\ c
 Proof. unfold f_cand_ok, f_wf_cand. rewrite cand_vals_wf_all. intros H. now apply andb_prop in H. Qed.
 
 Lemma f_cand_ok_join c : wf_cand fv_is_null c = true -> cand_all wf wf c = true -> f_cand_ok c = true.
-Proof. unfold f_cand_ok, f_wf_cand. rewrite cand_vals_wf_all. intros H1 H2. now apply andb_true_intro. Qed.
+Proof. unfold f_cand_ok, f_wf_cand. intros H1 H2. rewrite H1. rewrite cand_vals_wf_all. exact H2. Qed.
 
 (* the tied instance (eq_t / cmp_t) coincides with the lawful instance (eqT / cmpT) on wf values *)
 Lemma f_mem_T c x : cand_all wf wf c = true -> wf x = true -> f_mem c x = mem eqT cmpT fv_is_null c x.
@@ -965,7 +965,7 @@ Theorem f_exclude_sub a v c x :
 Proof.
   intros Ha Wv Wx E. apply f_cand_ok_split in Ha. destruct Ha as [Wa Va].
   unfold f_exclude in E. rewrite exclude_ok in E. injection E as <-.
-  rewrite (ext_excludeT fv eq_t eqT cmp_t cmpT fv_is_null Null wf eq_t_eqT cmp_t_cmpT eq_refl a v Va Wv).
+  rewrite (ext_excludeT fv eq_t eqT cmp_t cmpT fv_is_null Null wf eq_t_eqT cmp_t_cmpT a v Va Wv).
   rewrite !f_mem_T; auto.
   - destruct fv_laws as (H1 & H2 & H3 & H4 & H5 & H6). now apply excludeL_sub.
   - apply cand_all_excludeT; auto.
@@ -977,7 +977,7 @@ Theorem f_exclude_sup a v c x :
 Proof.
   intros Ha Wv Wx E. apply f_cand_ok_split in Ha. destruct Ha as [Wa Va].
   unfold f_exclude in E. rewrite exclude_ok in E. injection E as <-.
-  rewrite (ext_excludeT fv eq_t eqT cmp_t cmpT fv_is_null Null wf eq_t_eqT cmp_t_cmpT eq_refl a v Va Wv).
+  rewrite (ext_excludeT fv eq_t eqT cmp_t cmpT fv_is_null Null wf eq_t_eqT cmp_t_cmpT a v Va Wv).
   rewrite !f_mem_T, (eq_t_eqT x v Wx Wv); auto.
   - destruct fv_laws as (H1 & H2 & H3 & H4 & H5 & H6). now apply excludeL_sup.
   - apply cand_all_excludeT; auto.
@@ -993,24 +993,23 @@ Theorem f_range_intersect_exact a b x :
             f_contains r x = f_contains a x && f_contains b x.
 Proof.
   intros Wa Wb Va Vb Wx.
-  destruct (intersect_total fv eq_t cmp_t fv_is_null Null wf eq_refl (CRange a) (CRange b) Wa Wb) as (c0 & _).
+  change (cand_all wf wf (CRange a) = true) in Va.
+  change (cand_all wf wf (CRange b) = true) in Vb.
   exists (range_intersectT cmp_t a b).
-  assert (Vr : cand_all wf wf (CRange (range_intersectT cmp_t a b)) = true).
-  { apply (cand_all_stepT fv eq_t cmp_t fv_is_null wf wf (CRange a) (CRange b)).
-    - rewrite <- cand_vals_wf_all. exact Va.
-    - rewrite <- cand_vals_wf_all. exact Vb. }
+  assert (Vr : cand_all wf wf (CRange (range_intersectT cmp_t a b)) = true)
+    by (apply (cand_all_stepT fv eq_t cmp_t fv_is_null wf wf (CRange a) (CRange b)); assumption).
   split; [|split; [|split]].
   - unfold f_range_intersect. now apply range_intersect_ok.
   - apply (wf_stepT fv eq_t cmp_t fv_is_null (CRange a) (CRange b)); assumption.
-  - rewrite <- cand_vals_wf_all in Vr. exact Vr.
-  - pose proof (f_mem_T (CRange a) x) as Ea. pose proof (f_mem_T (CRange b) x) as Eb.
-    pose proof (f_mem_T (CRange (range_intersectT cmp_t a b)) x Vr Wx) as Er.
-    cbn [f_mem mem] in Ea, Eb, Er. unfold f_mem in Ea, Eb, Er. cbn [mem] in Ea, Eb, Er.
-    unfold f_contains. rewrite Er, Ea, Eb; try assumption; try (rewrite <- cand_vals_wf_all; assumption).
+  - exact Vr.
+  - change (f_mem (CRange (range_intersectT cmp_t a b)) x = f_mem (CRange a) x && f_mem (CRange b) x).
+    rewrite !f_mem_T by assumption.
     assert (EQ : range_intersectT cmp_t a b = range_intersectT cmpT a b).
-    { pose proof (ext_stepT fv eq_t eqT cmp_t cmpT fv_is_null wf eq_t_eqT cmp_t_cmpT (CRange a) (CRange b)) as H.
-      cbn [stepT] in H. injection H; auto; rewrite <- cand_vals_wf_all; assumption. }
-    rewrite EQ. destruct fv_laws as (H1 & H2 & H3 & H4 & H5 & H6). now apply contains_range_intersect.
+    { pose proof (ext_stepT fv eq_t eqT cmp_t cmpT fv_is_null wf eq_t_eqT cmp_t_cmpT
+                    (CRange a) (CRange b) Va Vb) as H.
+      cbn in H. injection H as H H'. unfold range_intersectT. now rewrite H, H'. }
+    rewrite EQ. cbn [mem]. destruct fv_laws as (H1 & H2 & H3 & H4 & H5 & H6).
+    now apply contains_range_intersect.
 Qed.
 
 Theorem f_degenerate_no_non_null r x :
@@ -1022,7 +1021,7 @@ Proof.
   rewrite (ext_contains fv cmp_t cmpT fv_is_null wf cmp_t_cmpT r x V1 V2 Wx).
   rewrite (ext_degenerate fv cmp_t cmpT wf cmp_t_cmpT r V1 V2) in D.
   destruct fv_laws as (H1 & H2 & H3 & H4 & H5 & H6).
-  now apply (degenerate_no_non_null fv eqT cmpT fv_is_null Null).
+  eapply degenerate_no_non_null; eassumption.
 Qed.
 
 Theorem f_range_new_spec s e n :
